@@ -8,7 +8,7 @@
 namespace vf
 {
 
-typedef long double LD;
+
 
 // ---- VEGAS -------------------------------------------------------------------------------------
 // smoothed, damped importance of the old bins of one dimension
